@@ -238,8 +238,12 @@ def r04f(ctx):
                      "it sums, over both sequences, the same per-node cost Remove and Insert charge (total_size + penalty)")
     q = m.need_class("EditDistance")
     init = m.method(q, "__init__")
-    ub = next((s_ for s_ in walk_no_nested(init.node) if isinstance(s_, ast.Assign) and isinstance(s_.targets[0], ast.Name)
-               and s_.targets[0].id == "cost_upper_bound"), None)
+    # the value handed to the base class as cost_upper_bound= (followed through one local)
+    kwv = next((k.value for c in walk_no_nested(init.node) if isinstance(c, ast.Call) for k in c.keywords if k.arg == "cost_upper_bound"), None)
+    ub = None
+    if isinstance(kwv, ast.Name):
+        ub = next((s_ for s_ in walk_no_nested(init.node) if isinstance(s_, ast.Assign) and isinstance(s_.targets[0], ast.Name)
+                   and s_.targets[0].id == kwv.id), None)
     if ub is None:
         ctx.inconclusive("R04f", init.file, "EditDistance.__init__", init.node, "cost_upper_bound", "cost_upper_bound assignment not found")
         return
